@@ -163,4 +163,13 @@ theorem C11_torn_tail_append_counterexample_oldshape :
 theorem C11_torn_tail_append_fixed :
     (recover false (tornFS.applyAll (tornLife {}).2)).alive = [(['a'], ['1', ':', '2']), (['z'], ['5', ':', '6'])] := by decide
 
+/-- **Only the compacted file survived** (a crash between the remove and the rename of a compaction): the restart
+recovers from `<snapshot>.compact` exactly what it would recover if the same bytes were the snapshot itself — both
+as the state `recover` reads and as the in-memory state `NewSnapshotter` starts with. (The harness op `createonly`
+checks the same equality on real nodes started through `serf.Create`.) -/
+theorem C11_compact_only_recovers (rj : Bool) (mc : Nat) (b : Bytes) :
+    recover rj { main := none, tmp := some b } = recover rj { main := some b, tmp := none } ∧
+    (Snap.openOn rj mc { main := none, tmp := some b }).1.mem = (Snap.openOn rj mc { main := some b, tmp := none }).1.mem := by
+  constructor <;> simp [recover, Snap.openOn, Snap.mem]
+
 end SerfProofs.C11
